@@ -22,11 +22,12 @@
 #include "testkeys/EC/256_EC.h"
 #include "testkeys/EC/256_EC_KEY.h"
 #include "testkeys/EC/256_EC_CA.h"
+#include "c09_seeds.h"
 
 static int thorough;
 
 typedef struct { const char *name; int kind; wcfg_t cfg; int resumed; int expect_complete; } scen_t;
-enum { K_LOADKEYS_RSA = 0, K_LOADKEYS_EC, K_SESSION, K_LOADKEYS_PEMCAS };
+enum { K_LOADKEYS_RSA = 0, K_LOADKEYS_EC, K_SESSION, K_LOADKEYS_PEMCAS, K_PARSE_OBJECTS };
 static scen_t scens[24];
 static int nscen;
 
@@ -139,6 +140,43 @@ static void run_scenario(int si, sres_t *out)
     const scen_t *S = &scens[si];
     memset(out, 0, sizeof(*out));
     env_live_reset();
+    if (S->kind == K_PARSE_OBJECTS)
+    {
+        /* the credential parsers on objects the handshake scenarios do not carry: an extension-rich certificate (multi-valued
+           RDNs, domainComponent, policies, name constraints, AIA, CRL distribution points), a CRL with entries and
+           extensions, PKCS#8 keys plain and encrypted */
+        psX509Cert_t *cert = NULL;
+        psPubKey_t key;
+        int rc;
+        world_open();
+        env_track(1);
+        rc = psX509ParseCert(NULL, c09s_rich_ec256_der, sizeof(c09s_rich_ec256_der), &cert, 0);
+        if (rc < 0) out->any_api_error = 1;
+        else { out->certs++; if (cert && cert->parseStatus != PS_X509_PARSE_SUCCESS) out->unparsed++; }
+        psX509FreeCert(cert);
+#ifdef USE_CRL
+        {
+            psX509Crl_t *crl = NULL;
+            rc = psX509ParseCRL(NULL, &crl, (unsigned char *) c09s_crl_rsa2048_der, sizeof(c09s_crl_rsa2048_der));
+            if (rc < 0) out->any_api_error = 1;
+            else out->anchors++;
+            if (crl) psX509FreeCRL(crl);
+        }
+#endif
+#ifdef USE_PKCS8
+        memset(&key, 0, sizeof(key));
+        rc = psPkcs8ParsePrivBin(NULL, c09s_p8_rsa1024_der, sizeof(c09s_p8_rsa1024_der), NULL, &key);
+        if (rc < 0) out->any_api_error = 1;
+        psClearPubKey(&key);
+        memset(&key, 0, sizeof(key));
+        rc = psPkcs8ParsePrivBin(NULL, c09s_p8e_ec256_der, sizeof(c09s_p8e_ec256_der), (char *) C09_PASSWORD, &key);
+        if (rc < 0) out->any_api_error = 1;
+        psClearPubKey(&key);
+#endif
+        env_track(0);
+        out->live_after = env_live();
+        return;
+    }
     if (S->kind == K_LOADKEYS_RSA || S->kind == K_LOADKEYS_EC || S->kind == K_LOADKEYS_PEMCAS)
     {
         sslKeys_t *k = NULL;
@@ -479,6 +517,12 @@ int main(int argc, char **argv)
     add_scen("tls11-ecdhe-ecdsa", K_SESSION, V_TLS11, KX_ECDHE_ECDSA, 0, 0, 0, 0, 0, 1, 0);
     /* (appended: scenario indices are part of replay descriptors) */
     add_scen("load-pem-bundle-of-3-trust-anchors", K_LOADKEYS_PEMCAS, 0, 0, 0, 0, 0, 0, 0, 0, 1);
+    add_scen("parse-rich-certificate-crl-pkcs8", K_PARSE_OBJECTS, 0, 0, 0, 0, 0, 0, 0, 0, 1);
+    /* the client names the server it expects and sends a server_name extension built with the hello-extension API */
+    add_scen("tls12-rsa-expected-name-and-sni-extension", K_SESSION, V_TLS12, KX_RSA, 0, 0, 0, 0, 0, 1, 1);
+    scens[nscen - 1].cfg.expected_name = "localhost"; scens[nscen - 1].cfg.sni_ext = 1;
+    add_scen("tls13-rsa-expected-name-and-sni-extension", K_SESSION, V_TLS13, KX_13_RSA, 0, 0, 0, 0, 0, 1, 1);
+    scens[nscen - 1].cfg.expected_name = "localhost"; scens[nscen - 1].cfg.sni_ext = 1;
 
     if (replay)
     {
